@@ -10,6 +10,8 @@ Record wf_cfg (c : cfg) : Prop := {
   wf_single : c_wm c = WSingle -> (c_nw c <= 1)%nat;
   wf_idx : forall t, is_reader c t = true ->
            0 <= c_idx0 c t < two32 /\ c_idx0 c t mod cap c = c_pre c mod cap c;
+  (* a message whose value is the address of a payload object carries its own object *)
+  wf_val : forall m, 0 <= c_val c m -> c_val c m = m;
 }.
 
 (* program-point classes *)
